@@ -237,6 +237,13 @@ def run_case(c, d):
     if d['form'] in ('function', 'function2d'):
         try:
             r1 = spectrum.speriodogram(x, NFFT=NFFT, detrend=False, scale_by_freq=False, window=name)
+            if d.get('i', 0) % 4 == 1:
+                # a caller's own Window object of the same name and length, normalised in place by the caller
+                try:
+                    wo = spectrum.Window(N, name)
+                    np.multiply(wo.data, 0.5, out=wo.data)
+                except Exception:
+                    pass
             r2 = spectrum.speriodogram(x, NFFT=NFFT, detrend=False, scale_by_freq=False, window=name)
         except Exception as exc:
             c.exception('speriodogram', exc, feats)
